@@ -70,10 +70,18 @@ def run_cell(arg):
         xp = flow_xp(be)
         tag = f"{be}|{c['bounded']}|{'affine' if c['affine'] else 'noaffine'}|{dt}|{c['state']}" + ("|refit" if c.get("refit") else "")
         scen = {"builder": "density_cell", "params": {"cell": c}}
+        nm = c.get("names", "sorted")
+        PARAMS = ["b", "a"] if nm == "unsorted" else ["a", "b"]
+        pos_bounds = [BOUNDS["a"], BOUNDS["b"]]            # bounds by *position* of the parameter
+        items = list(zip(PARAMS, pos_bounds))
+        if nm == "revdict":
+            items = items[::-1]
+        PB = {k: list(v) for k, v in items}
+        tag += "|" + nm
         rng = np.random.default_rng(7)
         data = np.stack([rng.uniform(-1.5, 2.5, 96), rng.uniform(1.0, 4.0, 96)], axis=1)
         try:
-            tr = FlowTransform(parameters=["a", "b"], prior_bounds=BOUNDS, bounded_to_unbounded=c["bounded"] != "off",
+            tr = FlowTransform(parameters=list(PARAMS), prior_bounds=dict(PB), bounded_to_unbounded=c["bounded"] != "off",
                                bounded_transform=c["bounded"] if c["bounded"] != "off" else "logit",
                                affine_transform=c["affine"], xp=xp, dtype=dt)
             fl = build_flow(be, dt, tr)
@@ -96,7 +104,7 @@ def run_cell(arg):
             lp_before = np.asarray(smcdrv.to_np(fl.log_prob(probe)), dtype=np.float64)
             # JacobianIncluded with the real transform: log_prob(x) = base(T(x)) + J_T(x), where T is an
             # independent copy of the data transform fitted once on the data of the last fit
-            tr2 = FlowTransform(parameters=["a", "b"], prior_bounds=BOUNDS, bounded_to_unbounded=c["bounded"] != "off",
+            tr2 = FlowTransform(parameters=list(PARAMS), prior_bounds=dict(PB), bounded_to_unbounded=c["bounded"] != "off",
                                 bounded_transform=c["bounded"] if c["bounded"] != "off" else "logit",
                                 affine_transform=c["affine"], xp=xp, dtype=dt)
             tr2.fit(xp.asarray(np.asarray(data, dtype=dt)))
